@@ -68,8 +68,8 @@ inductive Folding | lower | upper | exact | asciiLower deriving DecidableEq
 def keywordFolding : Folding := .lower
 /-- the arms of `match next` in `Scanner::next_token` that produce a token directly (src/scanner.rs) -/
 def charToken : Char → Option (Token N)
-  | ')' => some .rightParen
   | '(' => some .leftParen
+  | ')' => some .rightParen
   | '[' => some .leftBracket
   | ']' => some .rightBracket
   | ',' => some .comma
